@@ -291,12 +291,13 @@ def scripted(big=False):
         ops = prologue() + [O('open_dir', d='d0', name='SUB', as_='d1')]
         modes = ['ReadOnly', 'Append', 'Truncate', 'Create', 'CreateOrTruncate', 'CreateOrAppend']
         k = 0
-        for target, dirv in [('MISSING.X', 'd0'), ('A.TXT', 'd0'), ('RO.TXT', 'd1'), ('SUB', 'd0'), ('EMPTY.DAT', 'd0'), ('HIDSYS.DAT', 'd0'), ('HIDRO.DAT', 'd0'), ('ZC.DAT', 'd1'), ('.', 'd1'), ('..', 'd1')]:
+        for target, dirv in [('MISSING.X', 'd0'), ('A.TXT', 'd0'), ('RO.TXT', 'd1'), ('SUB', 'd0'), ('EMPTY.DAT', 'd0'), ('HIDSYS.DAT', 'd0'), ('HIDRO.DAT', 'd0'), ('ZC.DAT', 'd1'), ('.', 'd1'), ('..', 'd1'), ('VERIFVOL', 'd0')]:
             for m in modes:
                 ops += [O('open_file', d=dirv, name=target, mode=m, as_='t%d' % k), O('write', f='t%d' % k, n=1), O('close_file', f='t%d' % k)]
                 if target == 'MISSING.X':
                     ops += [O('delete', d=dirv, name=target)]
                 k += 1
+        ops += [O('delete', d='d0', name='VERIFVOL'), O('mkdir', d='d0', name='VERIFVOL'), O('open_dir', d='d0', name='VERIFVOL', as_='dlab'), O('find', d='d0', name='VERIFVOL'), O('iterate', d='d0')]
         ops += [O('open_file', d='d0', name='A.TXT', mode='ReadOnly', as_='held')]
         for m in modes:
             ops += [O('open_file', d='d0', name='A.TXT', mode=m, as_='t%d' % k)]
